@@ -68,12 +68,23 @@ pub fn category(f: &NetworkFilter) -> &'static str {
         "exception"
     } else if f.is_important() && (!f.is_redirect() || f.also_block_redirect()) {
         "important"
-    } else if adblock::verif_hooks::filter_tag(f).is_some() && !f.is_redirect() {
+    } else if tag_of(f).is_some() && !f.is_redirect() {
         "tagged"
     } else if (f.is_redirect() && f.also_block_redirect()) || !f.is_redirect() {
         "normal"
     } else {
         "none"
+    }
+}
+/// The tag of a rule as WRITTEN in its line (last `tag=` option; `tag=` alone is the empty tag), for
+/// rules parsed in debug mode; the parser's stored tag otherwise.
+pub fn tag_of(f: &NetworkFilter) -> Option<String> {
+    match f.raw_line.as_ref() {
+        Some(l) => {
+            let i = l.rfind('$')?;
+            l[i + 1..].split(',').filter_map(|o| o.strip_prefix("tag=")).last().map(|s| s.to_string())
+        }
+        None => adblock::verif_hooks::filter_tag(f).map(|s| s.to_string()),
     }
 }
 pub fn live_rules(rules: &[NetworkFilter]) -> Vec<&NetworkFilter> {
@@ -91,7 +102,7 @@ pub fn spec_verdict_p(rules: &[NetworkFilter], tags: &HashSet<String>, req: &Req
         return V { matched: false, important: false, exception: false, filter: false };
     }
     let live = live_rules(rules);
-    let tag_ok = |f: &NetworkFilter, t: &HashSet<String>| adblock::verif_hooks::filter_tag(f).map(|x| t.contains(x)).unwrap_or(true);
+    let tag_ok = |f: &NetworkFilter, t: &HashSet<String>| tag_of(f).map(|x| t.contains(&x)).unwrap_or(true);
     let none = HashSet::new();
     let imp = live.iter().any(|f| category(f) == "important" && tag_ok(f, tags) && rule_matches(f, req));
     let blk = !mr
